@@ -81,7 +81,7 @@ func genC16(g *Gen) any {
 		sc.Admin = append(sc.Admin, C16Admin{AtS: g.Pick(5, 30, 59, 65, 110), User: g.Int(0, nu-1), Op: []string{"topup", "delete", "expire"}[g.Rng.IntN(3)]})
 	}
 	if g.Bool(0.1) {
-		sc.UploadFail = g.Int(1, 3)
+		sc.UploadFail = g.Pick(1, 1, 2, 3)
 	}
 	return sc
 }
@@ -292,8 +292,29 @@ func runC16(c *Ctx, scAny any) {
 	}
 	cutoff := map[int]*cut{}
 	lastInfo := map[int]string{}
+	var failSeen time.Duration
+	var liveAtFail []int
 	c.W.OnIdle = func() string {
 		now := c.W.Elapsed()
+		// one failed upload must not be the last one: while a limited user's session
+		// stays up, the rounds that follow reach the manager again (C17: a live
+		// session's usage is reported and it can be terminated)
+		if fm != nil && fm.Fired {
+			if failSeen == 0 {
+				failSeen = now
+				for i, cs := range sessions {
+					if cs.started && !cs.sesh.IsClosed() {
+						liveAtFail = append(liveAtFail, i)
+					}
+				}
+			} else if now-failSeen > 115*time.Second && fm.calls == fm.failAt { // (two more rounds have had their turn)
+				for _, i := range liveAtFail {
+					if !sessions[i].sesh.IsClosed() {
+						return fmt.Sprintf("uploads-stopped|the usage upload at %v failed (injected database error); %v later session %d is still up but no further upload has reached the user manager", failSeen, now-failSeen, i)
+					}
+				}
+			}
+		}
 		for u := range uids {
 			info, err := w.Mgr.GetUserInfo(uids[u])
 			gone := err != nil
